@@ -88,6 +88,7 @@ type ModelVar struct {
 
 // Unit: verification of one function (or one lemma).
 type Unit struct {
+	inTypeInv bool // a type invariant is being expanded
 	patHits map[string]map[string]bool // clause pattern -> callees it matched (review aid)
 	cx            *Ctx
 	enc           *Enc
